@@ -2485,6 +2485,27 @@ func (tc *typechecker) checkPackageSelector(expr *ast.Selector) (*typeInfo, bool
 			}
 		}
 	}
+	if decl, ok := pkg.value.(*packageInfo).DeclarationNodes[expr.Ident]; ok && ti.Addressable() && !ti.IsNative() {
+		// ti is a variable of an imported Scriggo package or template file:
+		// it is an upvar of the function literals that refer to it.
+		upvar := ast.Upvar{
+			NativeName:  expr.Ident,
+			NativePkg:   ident.Name,
+			Declaration: decl,
+		}
+		for _, fn := range tc.scopes.Functions() {
+			add := true
+			for _, uv := range fn.Upvars {
+				if uv.Declaration == upvar.Declaration && uv.NativePkg == upvar.NativePkg {
+					add = false
+					break
+				}
+			}
+			if add {
+				fn.Upvars = append(fn.Upvars, upvar)
+			}
+		}
+	}
 	tc.compilation.typeInfos[expr] = ti
 	tc.scopes.Use(ident.Name)
 
